@@ -7,6 +7,7 @@ from typing import Any, Callable, ClassVar, Final
 import jax
 import jax.numpy as jnp
 import numpy as np
+import onnx_ir as ir
 from jax2onnx._compat.jax import (
     AbstractValue,
     JaxprEqn,
@@ -139,6 +140,29 @@ class OneHotPlugin(PrimitiveLeafPlugin):
             object(),
             np.asarray([0, 1], dtype=out_dtype),
         )
+
+        # ONNX OneHot wraps indices in [-depth, -1] around; jax.nn.one_hot yields
+        # an all-zero row for every negative index. Send negative indices out of
+        # range (== depth) so that OneHot switches every position off.
+        zero_const = ctx.bind_const_for_var(object(), np.asarray(0, dtype=np.int64))
+        is_negative = ctx.builder.Less(
+            indices_input,
+            zero_const,
+            _outputs=[ctx.fresh_name("one_hot_negative")],
+        )
+        is_negative.type = ir.TensorType(ir.DataType.BOOL)
+        if getattr(x_val, "shape", None) is not None:
+            is_negative.shape = x_val.shape
+        safe_indices = ctx.builder.Where(
+            is_negative,
+            depth_const,
+            indices_input,
+            _outputs=[ctx.fresh_name("one_hot_indices_safe")],
+        )
+        safe_indices.type = ir.TensorType(ir.DataType.INT64)
+        if getattr(x_val, "shape", None) is not None:
+            safe_indices.shape = x_val.shape
+        indices_input = safe_indices
 
         result = ctx.builder.OneHot(
             indices_input,
